@@ -70,6 +70,11 @@ def run(ctx):
         cases.append(("w_c19_gt2fn", [t1, t2, t3]))
         d = rng.choice(deltas)
         cases.append(("w_c19_inc", [fn, t1, t2, t3, (fn // 51) % 8, d]))
+    # every delta landing exactly on / just around the hyperframe end
+    for d in sorted(set(deltas)):
+        for fn in (H - d - 1, H - d, H - d + 1):
+            if 0 <= fn < H:
+                cases.append(("w_c19_inc", [fn, fn // 1326, fn % 26, fn % 51, (fn // 51) % 8, d]))
     # off-domain inputs (robustness of the tie, not part of the property): arbitrary components
     for _ in range(n // 10):
         cases.append(("w_c19_gt2fn", [rng.below(2048), rng.below(256), rng.below(256)]))
